@@ -615,14 +615,18 @@ impl LyNative for IterReduce {
     let mut accumulator = args[1];
     let callable = args[2];
 
-    hooks.push_root(accumulator);
     hooks.push_root(callable);
+    hooks.push_root(accumulator);
 
     let mut iter = args[0].to_obj().to_enumerator();
 
     while !is_falsey(iter.next(hooks)?) {
       let current = iter.current();
       accumulator = hooks.call(callable, &[accumulator, current])?;
+
+      // the running result is held by nothing but this native
+      hooks.pop_roots(1);
+      hooks.push_root(accumulator);
     }
 
     hooks.pop_roots(2);
